@@ -86,6 +86,15 @@ func init() {
 		add("S3 d<=1 join3to4 (every 4th position, level 0)", s3Items(scJoin3, 1, seedPositions(scJoin3, 1, 0, 4), devAlphabet(nodesOf(4), 0, 0), mons, 40))
 		add("identical transaction bytes submitted repeatedly at one node and at several nodes (static3): d=0 and d<=1 (every 3rd position, level 0)",
 			append(s3Items(scDups3, 0, nil, nil, mons, 40), s3Items(scDups3, 1, seedPositions(scDups3, 0, 0, 3), devAlphabet(nodesOf(3), 0, 0), mons, 40)...))
+		// bursts: many transactions pending at once when a node records its next event
+		{
+			var bi []sched.Item
+			for _, k := range []int{33, 101, 150, 260, 1030} {
+				bi = append(bi, s3Items(fmt.Sprintf("burst:3:7:%d:30", k), 0, nil, nil, mons, 40)...)
+			}
+			bi = append(bi, s3Items("burst:3:7:150:30", 1, seedPositions("burst:3:7:150:30", 150, 0, 7), devAlphabet(nodesOf(3), 0, 0), mons, 40)...)
+			add("bursts of 33/101/150/260/1030 submissions pending at once at validator 0, then at validator 1 (static3): d=0; d<=1 after the first burst of 150 (every 7th position, level 0)", bi)
+		}
 		// transactions accepted by a node that then fast-forwards (a catching-up joiner; a validator restarted empty)
 		{
 			var ffItems []sched.Item
